@@ -35,6 +35,7 @@ pub fn prop() -> HistProp {
         mk: |_, _, o| Box::new(C06 { rec: (o.state.total_bond_bsei_amount.u128(), o.state.total_bond_stsei_amount.u128()), nontrivial: false }),
         extra: Some((4, |_| release_scenario_strategy(cfg_strategy()))),
         many_batches: 1,
+        zero_arrival: 1,
     }
 }
 
@@ -146,6 +147,16 @@ impl Checker for C06 {
         }
         // ---- loss on unbonding stake is spread pro rata over the release group
         if step.ok() && matches!(step.rop, ROp::Withdraw { .. }) {
+            // "the batches released together" are all the matured ones: a successful withdrawal leaves no batch
+            // whose unbonding period has elapsed unreleased (otherwise its loss lands on batches undelegated later)
+            let (now, unb) = (cx.post.time, o0.params.unbonding_period);
+            if let Some(h) = o1.history.iter().find(|h| !h.released && h.time + unb <= now) {
+                out.fail(v(
+                    "matured-batch-left-unreleased",
+                    format!("{}: batch {} was undelegated at {} and matured at {} <= now {}, yet this successful withdrawal did not release it", step.desc(), h.batch_id, h.time, h.time + unb, now),
+                ));
+                return;
+            }
             let group = release_group(o0, o1);
             if !group.is_empty() {
                 let arrived = o0.bank_of(HUB, USEI).saturating_sub(o0.state.prev_hub_balance.u128());
